@@ -71,6 +71,7 @@ type vr struct {
 	noCapt  bool // must not be referenced from a closure body (named results)
 	bnd     bool // min/max are meaningful
 	declPos int  // offset in the output where the variable became visible
+	noArg   bool // never passed as an argument of slice type (variadic parameter)
 	noCheck bool // used by construction (switch init variable)
 	idxFor  *vr  // ro int that is a valid index of this slice variable (range index)
 }
@@ -405,10 +406,12 @@ func (g *gen) typeName(t *typ) string {
 type litPos int
 
 const (
-	posInit    litPos = iota // var x T = <lit>   (bare allowed when not strict)
-	posOperand               // x op <lit>        (bare allowed when not strict)
-	posArg                   // f(<lit>), return <lit>
-	posPlain                 // x = <lit>, x := <lit>, composite elements: always explicit
+	posInit      litPos = iota // var x T = <lit>   (bare allowed when not strict)
+	posOperand                 // x op <lit>        (bare allowed when not strict)
+	posArg                     // f(<lit>)
+	posReturn                  // return <lit>
+	posMethodArg               // v.M(<lit>)
+	posPlain                   // x = <lit>, x := <lit>, composite elements: always explicit
 )
 
 func (g *gen) intLitValue(t *typ) int64 {
@@ -490,6 +493,13 @@ func (g *gen) bare(t *typ, pos litPos) bool {
 		return true
 	}
 	if g.o.Strict || pos == posPlain {
+		return false
+	}
+	if pos == posMethodArg && (g.avoided("method-arg-const:"+t.name()) || g.avoided("arg-const:"+t.name())) {
+		return false
+	}
+	if pos == posArg && g.avoided("arg-const:"+t.name()) || pos == posReturn && g.avoided("return-const:"+t.name()) ||
+		pos == posInit && g.avoided("decl-const:"+t.name()) {
 		return false
 	}
 	g.feat("untyped-const-adapts")
@@ -807,6 +817,9 @@ func (g *gen) funcDecl() {
 		if recursive && i == 0 {
 			v.ro = true
 		}
+		if f.variadic && i == len(f.params)-1 && g.avoided("variadic-param:as-slice-arg") {
+			v.noArg = true
+		}
 		if p.t.k == kSlice || p.t.k == kMap {
 			v.ro = true // never appended to / reassigned; element stores are allowed
 		}
@@ -824,7 +837,7 @@ func (g *gen) funcDecl() {
 		}
 		g.line("if %s <= 0 {", n)
 		g.ind++
-		g.line("return %s", g.lit(f.results[0], posArg))
+		g.line("return %s", g.lit(f.results[0], posReturn))
 		g.ind--
 		g.line("}")
 		if g.chance(60) {
@@ -877,8 +890,14 @@ func (g *gen) funcDecl() {
 		g.block(g.stmts, 2)
 		var es []string
 		g.retGuard()
+		if len(f.results) > 1 && g.avoided("multi-return:eval-order") {
+			g.noCalls++
+		}
 		for _, t := range f.results {
-			es = append(es, g.expr(t, 2))
+			es = append(es, g.exprPos(t, 2, posReturn))
+		}
+		if len(f.results) > 1 && g.avoided("multi-return:eval-order") {
+			g.noCalls--
 		}
 		g.retDone()
 		g.pop(g.chance(40))
